@@ -80,6 +80,15 @@ def build(tier, repo):
         for k, v in st.items():
             chk.note_analysed("%s:%s" % (fname, k), v)
         chk.note_analysed("%s:wrappers" % fname, len(wr))
+    c = cs["base.c"]
+    wr = [fn for _, fn in cf.method_table(c).get("base_functions", []) if fn in c.funcs and
+          re.search(r"\b(scal|gemv|gemm|syrk|symv|axpy)\s*\[\s*\w+\s*\]\s*\(", c.text(c.funcs[fn]["b"], c.funcs[fn]["e"]))]
+    if len(wr) < 5:
+        raise AnalysisError("base.c: expected at least 5 wrappers calling the BLAS function tables, found %s" % wr)
+    st = cw.footprint_rule(r1, r2, repo, "base.c", wr, kbname="kb_blas")
+    for k, v in st.items():
+        chk.note_analysed("base.c:%s" % k, v)
+    chk.note_analysed("base.c:wrappers", len(wr))
     r1.require(1800)
     r2.require(1800)
 
